@@ -26,7 +26,9 @@ VERIF = Path(__file__).resolve().parents[2]
 COQ = VERIF / "coq"
 THEORIES = COQ / "theories"
 GEN = COQ / "gen"
-BUILD = VERIF / "build"
+# scratch of a run (cases, logs, replay files); VERIF_BUILD lets a second run of the same property (mutant validation, a
+# builder working beside the registered runs) use a directory of its own
+BUILD = Path(os.environ.get("VERIF_BUILD", VERIF / "build"))
 # evidence of runs against /repo goes to evidence/; runs against another tree (VERIF_REPO=..., seeded changes) must not
 # overwrite it: tools/seedtest.sh points VERIF_EVIDENCE to a scratch directory
 EVIDENCE = Path(os.environ.get("VERIF_EVIDENCE", VERIF / "evidence"))
